@@ -247,7 +247,7 @@ func (Op Divp) Op_instruction_verilog_extra_modules(arch *Arch, flavor string) (
 	result += "\n"
 	result += "endmodule\n"
 
-	return []string{"divider"}, []string{result}
+	return []string{"divp"}, []string{result}
 }
 
 func (Op Divp) AbstractAssembler(arch *Arch, words []string) ([]UsageNotify, error) {
